@@ -135,6 +135,8 @@ private:
 	std::map<CK_ATTRIBUTE_TYPE,OSAttribute*> *_transaction;
 	// Set when a statement of the running transaction failed: the transaction must not be committed
 	bool _transactionFailed;
+	// Set when the database could not be read while looking up an attribute of this object
+	bool _readFailed;
 
 	OSAttribute* getAttributeDB(CK_ATTRIBUTE_TYPE type);
 	OSAttribute* accessAttribute(CK_ATTRIBUTE_TYPE type);
